@@ -266,6 +266,79 @@ def norm_elem(rec):
             tuple(norm_elem(x) for x in rec["elems"]))
 
 
+def build_element(rec, share=None, _depth=0):
+    """Element record (spec/Elements.tla shape, ToJson/dict form) -> real DSL objects through
+    the public constructors.  share: optional dict memo; when given, equal sub-records are
+    realised by ONE shared instance (the same element object at several positions)."""
+    import codec
+    import json as _json
+    from statham.schema import elements as E
+    from statham.schema.property import Property
+    key = None
+    if share is not None:
+        key = _json.dumps(rec, sort_keys=True, default=str)
+        if key in share:
+            return share[key]
+    sub = lambda r: build_element(r, share, _depth + 1)
+    kw = rec["kw"] if isinstance(rec["kw"], dict) else {}
+    kwargs = {}
+    deps = {}
+    for k, v in kw.items():
+        if k in ("default", "const"):
+            kwargs[k] = codec.val_to_py(v)
+        elif k == "enum":
+            kwargs[k] = [codec.val_to_py(x) for x in v]
+        elif k in NUM_KWS:
+            kwargs[k] = codec.val_to_py(v)
+        elif k in ("items", "contains", "propertyNames", "additionalItems", "additionalProperties"):
+            kwargs[k] = sub(v)
+        elif k == "itemsT":
+            kwargs["items"] = [sub(x) for x in v]
+        elif k in ("additionalItemsB", "additionalPropertiesB"):
+            kwargs[k[:-1]] = bool(v)
+        elif k == "patternProperties":
+            kwargs[k] = {p[0]: sub(p[1]) for p in v}
+        elif k == "depsL":
+            for p in v:
+                deps[p[0]] = list(p[1])
+        elif k == "depsS":
+            for p in v:
+                deps[p[0]] = sub(p[1])
+        elif k == "properties":
+            kwargs[k] = {p["attr"]: Property(sub(p["elem"]), required=bool(p["required"]),
+                                             source=(p["source"] if p["source"] != p["attr"] else None))
+                         for p in v}
+        elif k == "required":
+            kwargs[k] = list(v)
+        else:
+            kwargs[k] = v
+    if deps or "depsL" in kw or "depsS" in kw:
+        kwargs["dependencies"] = deps
+    cls = rec["cls"]
+    if cls in ("AnyOf", "OneOf", "AllOf"):
+        out = getattr(E, cls)(*[sub(x) for x in rec["elems"]], **kwargs)
+    elif cls == "Not":
+        out = E.Not(sub(rec["elems"][0]), **kwargs)
+    elif cls == "Nothing":
+        out = E.Nothing()
+    elif cls == "Object":
+        props = kwargs.pop("properties", {})
+        name = rec.get("name") or ""
+        if not name:
+            counter = share.setdefault("#names", [0]) if share is not None else [0]
+            name = "K%d" % counter[0]
+            counter[0] += 1
+        out = E.Object.inline(name, properties=props, **kwargs)
+    elif cls == "Array":
+        items = kwargs.pop("items")
+        out = E.Array(items, **kwargs)
+    else:
+        out = getattr(E, cls)(**kwargs)
+    if share is not None:
+        share[key] = out
+    return out
+
+
 # ------------------------------------------------------------------ the real CLI path, in memory
 _MEM = {}
 _MEM_COUNT = [0]
